@@ -292,6 +292,108 @@ fn judge_adjust(a: &mut Acc, name: &str, p: Q, r: &Q, got: Option<Q>, lo: Q, hi:
     }
 }
 
+/// Reserve composition: the liquidity a reserve is worth is available + borrowed - fees. Kamino keeps the last
+/// four terms as U68F60 fractions, Solend as 10^18-scaled decimals; every combination of a small menu (incl.
+/// fees larger than the borrowed amount, fractional parts, zero) is given to the real total-liquidity function
+/// and, through it, to the real conversions.
+fn sweep_reserve_composition(_tier: Tier, a: &mut Acc) {
+    let sf = |whole: u64, frac_60: u64| -> u128 { ((whole as u128) << 60) | (frac_60 as u128 & ((1u128 << 60) - 1)) };
+    let avail: [u64; 5] = [0, 1, 950_000_000, 1_000_000_000_000, 1u64 << 40];
+    let borrowed: [(u64, u64); 5] = [(0, 0), (0, 1 << 59), (7, 12345), (50_000_000, 0), (3_000_000_000_000, 999)];
+    let fees: [(u64, u64); 4] = [(0, 0), (0, 1 << 58), (60_000_000, 0), (1, 4095)];
+    // collateral supplies of at least 900 whole tokens: there the 2^-48 truncation of the scaled supplies moves a
+    // conversion by far less than one unit (tiny supplies are the subject of the scaled-conversion sweep above)
+    let cols: [u64; 3] = [900_000_000, 1_000_000_000_000, 1u64 << 41];
+    let ulp = rf::ulp();
+    for &av in &avail {
+        for &b in &borrowed {
+            for &f1 in &fees {
+                for &f2 in &fees {
+                    for &f3 in &[fees[0], fees[1], fees[3]] {
+                        // ---- Kamino
+                        let mut r: MinimalReserve = bytemuck::Zeroable::zeroed();
+                        r.available_amount = av;
+                        r.borrowed_amount_sf = sf(b.0, b.1).to_le_bytes();
+                        r.accumulated_protocol_fees_sf = sf(f1.0, f1.1).to_le_bytes();
+                        r.accumulated_referrer_fees_sf = sf(f2.0, f2.1).to_le_bytes();
+                        r.pending_referrer_fees_sf = sf(f3.0, f3.1).to_le_bytes();
+                        r.mint_decimals = 6;
+                        r.slot = 1000;
+                        let two60 = Q::from_integer(BigInt::one() << 60);
+                        let exact = rf::qu(av) + (qbig(sf(b.0, b.1)) - qbig(sf(f1.0, f1.1)) - qbig(sf(f2.0, f2.1)) - qbig(sf(f3.0, f3.1))) / two60;
+                        let got = std::panic::catch_unwind(std::panic::AssertUnwindSafe(|| r.calculate_total_supply_i80f48()));
+                        let rep = json!({"fn": "kamino_total_supply", "available": av, "borrowed": [b.0, b.1], "fees": [[f1.0, f1.1], [f2.0, f2.1], [f3.0, f3.1]]});
+                        match got {
+                            Err(_) => a.class("kamino:total_supply:panic"),
+                            Ok(g) => {
+                                a.class(if exact < rf::qzero() { "kamino:total_supply:negative" } else { "kamino:total_supply:some" });
+                                let gq = qi80(g);
+                                // each of the four fractions is truncated to 2^-48 separately: at most 3 ulps above, 1 below
+                                if gq.clone() - exact.clone() >= ulp.clone() * rf::qi(3) + ulp.clone() || exact.clone() - gq.clone() >= ulp.clone() * rf::qi(2) {
+                                    a.fail("C20.never_overstates", "kamino_total_supply", format!("kamino total liquidity {} for available {av}, borrowed {}.{}, fees {:?}: exact {:.9}", g, b.0, b.1, [f1, f2, f3], rf::qf64(&exact)), rep.clone());
+                                } else if exact > rf::qzero() {
+                                    for &col in &cols {
+                                        r.mint_total_supply = col;
+                                        for &x in &[1u64, 1_000, 900_000_000, 1u64 << 40] {
+                                            if x > col {
+                                                continue;
+                                            }
+                                            if let Some(l) = std::panic::catch_unwind(std::panic::AssertUnwindSafe(|| r.collateral_to_liquidity(x).ok())).unwrap_or(None) {
+                                                a.class("kamino:composition:c2l");
+                                                let ex = rf::qu(x) * exact.clone() / rf::qu(col);
+                                                if rf::qu(l) > ex.clone() + rf::qone() {
+                                                    a.fail("C20.never_overstates", "kamino_composition", format!("kamino: {x} of {col} collateral valued at {l}, exact {:.6} (total liquidity {:.6})", rf::qf64(&ex), rf::qf64(&exact)), json!({"fn": "kamino_composition", "x": x, "col": col, "reserve": rep.clone()}));
+                                                }
+                                            }
+                                        }
+                                    }
+                                }
+                            }
+                        }
+                    }
+                    // ---- Solend: available + borrowed - protocol fees, 10^18-scaled
+                    let wad = |whole: u64, frac_60: u64| -> u128 { (whole as u128) * 1_000_000_000_000_000_000u128 + (frac_60 as u128 % 1_000_000_000_000_000_000u128) };
+                    let mut s: SolendMinimalReserve = bytemuck::Zeroable::zeroed();
+                    s.liquidity_available_amount = av;
+                    s.liquidity_borrowed_amount_wads = wad(b.0, b.1).to_le_bytes();
+                    s.liquidity_accumulated_protocol_fees_wads = wad(f1.0 + f2.0, f1.1).to_le_bytes();
+                    s.liquidity_mint_decimals = 6;
+                    let w18 = Q::from_integer(BigInt::from(1_000_000_000_000_000_000u128));
+                    let exact = rf::qu(av) + (qbig(wad(b.0, b.1)) - qbig(wad(f1.0 + f2.0, f1.1))) / w18;
+                    let got = std::panic::catch_unwind(std::panic::AssertUnwindSafe(|| s.calculate_total_liquidity().ok())).unwrap_or(None);
+                    let rep = json!({"fn": "solend_total_liquidity", "available": av, "borrowed": [b.0, b.1], "fees": [f1.0 + f2.0, f1.1]});
+                    match got {
+                        None => a.class("solend:total_liquidity:err"),
+                        Some(g) => {
+                            a.class(if exact < rf::qzero() { "solend:total_liquidity:negative" } else { "solend:total_liquidity:some" });
+                            let gq = qi80(g);
+                            if gq.clone() - exact.clone() >= ulp.clone() * rf::qi(2) || exact.clone() - gq.clone() >= ulp.clone() * rf::qi(2) {
+                                a.fail("C20.never_overstates", "solend_total_liquidity", format!("solend total liquidity {} for available {av}, borrowed {}.{}, fees {}.{}: exact {:.9}", g, b.0, b.1, f1.0 + f2.0, f1.1, rf::qf64(&exact)), rep.clone());
+                            } else if exact > rf::qzero() {
+                                for &col in &cols {
+                                    s.collateral_mint_total_supply = col;
+                                    for &x in &[1u64, 1_000, 900_000_000, 1u64 << 40] {
+                                        if x > col {
+                                            continue;
+                                        }
+                                        if let Some(l) = std::panic::catch_unwind(std::panic::AssertUnwindSafe(|| s.collateral_to_liquidity(x).ok())).unwrap_or(None) {
+                                            a.class("solend:composition:c2l");
+                                            let ex = rf::qu(x) * exact.clone() / rf::qu(col);
+                                            if rf::qu(l) > ex.clone() + rf::qone() {
+                                                a.fail("C20.never_overstates", "solend_composition", format!("solend: {x} of {col} collateral valued at {l}, exact {:.6} (total liquidity {:.6})", rf::qf64(&ex), rf::qf64(&exact)), json!({"fn": "solend_composition", "x": x, "col": col, "reserve": rep.clone()}));
+                                            }
+                                        }
+                                    }
+                                }
+                            }
+                        }
+                    }
+                }
+            }
+        }
+    }
+}
+
 fn sweep_kamino_solend(tier: Tier, a: &mut Acc) {
     let decs: Vec<u64> = vec![0, 6, 9, 19, 23, 24];
     for (liq, col) in supply_pairs(tier) {
@@ -605,6 +707,7 @@ pub fn run(tier: Tier) -> Outcome {
     sweep_staleness(&mut a);
     sweep_adjust(tier, &mut a);
     sweep_kamino_solend(tier, &mut a);
+    sweep_reserve_composition(tier, &mut a);
     sweep_drift(tier, &mut a);
     sweep_adjusted_price(tier, &mut a);
     a.samples.push(json!({"fn": "collateral_to_liquidity_from_scaled", "x": 999, "liq": 1_070_000_000_000u64, "col": 1_000_000_000_000u64, "dec": 6}));
